@@ -19,13 +19,13 @@ ODD_FAN_NAMES = ["fanX", "fan", "fan-1", "fan+4", "fan1_2", "fan2a", "fan01", "f
 
 # Directed cases (always emitted first): the documented behaviours and the known defect.
 HW_DIRECTED = [
-    "#case hw directed: sensor index missing on the only matching chip (nil dereference)",
+    "#case hw directed: sensor index missing on the only matching chip (clean error; nil dereference before /repo 218c45c)",
     "hw.tree spec=k10temp|2|0|195|/nx/c17/hwmon1|T1:temp1",
     "hw.bindsensor platform=k10temp index=1",
     "hw.bindsensor platform=k10temp index=2",
     "hw.bindsensor platform=k10temp-pci-00c3 index=2",
     "hw.bindsensor platform=coretemp index=1",
-    "#case hw directed: sensor pattern also matches a chip without that index (fan-only chip)",
+    "#case hw directed: sensor pattern also matches a chip without that index (fan-only chip is skipped)",
     "hw.tree spec=nct6775|1|0|656|/nx/c17/hwmon2|F1:fan1,T1:temp1,T1:temp2;nct6775|1|0|672|/nx/c17/hwmon3|F1:fan1",
     "hw.bindsensor platform=nct6775 index=1",
     "hw.bindsensor platform=nct6775-isa-0290 index=1",
